@@ -5,6 +5,7 @@ INVARIANT M5Accepted
 INVARIANT FailureReturnsNothing
 INVARIANT NoPairingAfterError
 INVARIANT NoCodeNoPairing
+INVARIANT OnlyExactProof
 INVARIANT HonestCompletes
 INVARIANT VerdictMatches
 POSTCONDITION ExportCases
